@@ -1232,6 +1232,196 @@ func checkV4Mapped(r *Run, rc *RuleCtx, le *linEval) {
 	if len(missing) > 0 {
 		rc.Violation(pred, pred.Pos(), fmt.Sprintf("bytes %v not inspected", missing), "an IPv6 address that differs from the ::ffff:a.b.c.d pattern only in these bytes is encoded as IPv4 (family 0x01, 4 address bytes): the wire bytes are not the RFC encoding and the address read back is a different one")
 	}
+	checkV4MappedValues(r, rc, pred)
+}
+
+// checkV4MappedValues: where the predicate has the shape "zero test of a prefix && ip[10] == 0xff && ip[11] == 0xff"
+// (single-byte comparisons with constants, a callee with a loop over its slice), the comparisons are the
+// right ones: on a path that answers true bytes 10 and 11 were found equal to 0xff and the zero test said yes;
+// the zero test compares with 0, answers false on the byte that differs and true after the loop. Other shapes
+// (a table compared with bytes.Equal, ...) are left to the coverage clause above.
+func checkV4MappedValues(r *Run, rc *RuleCtx, pred *ssa.Function) {
+	p := r.P
+	type byteTest struct {
+		bo  *ssa.BinOp
+		idx int64 // -1: not a constant index
+		c   int64
+	}
+	testsOf := func(fn *ssa.Function, root ssa.Value) []byteTest {
+		var out []byteTest
+		eachInstr(fn, func(_ *ssa.BasicBlock, _ int, in ssa.Instruction) {
+			bo, ok := in.(*ssa.BinOp)
+			if !ok || (bo.Op != token.EQL && bo.Op != token.NEQ) {
+				return
+			}
+			cv, isC := constInt(bo.Y)
+			ld, isLd := stripConvs(bo.X).(*ssa.UnOp)
+			if !isC || !isLd || ld.Op != token.MUL {
+				return
+			}
+			ia, isIA := ld.X.(*ssa.IndexAddr)
+			if !isIA || ia.X != root {
+				return
+			}
+			k := int64(-1)
+			if kc, isK := constInt(ia.Index); isK {
+				k = kc
+			}
+			out = append(out, byteTest{bo, k, cv})
+		})
+		return out
+	}
+	// outcome of a byte test on the path: +1 the byte equals the constant, -1 it differs, 0 unknown
+	outcome := func(c *PathCtx, bt byteTest) int {
+		for _, pc := range c.PathConds() {
+			cond, val := pc.Cond, pc.Val
+			for {
+				u, isU := cond.(*ssa.UnOp)
+				if !isU || u.Op != token.NOT {
+					break
+				}
+				cond, val = u.X, !val
+			}
+			if cond == ssa.Value(bt.bo) {
+				if (bt.bo.Op == token.EQL) == val {
+					return +1
+				}
+				return -1
+			}
+		}
+		return 0
+	}
+	boolConst := func(v ssa.Value) (bool, bool) {
+		cv, ok := v.(*ssa.Const)
+		if !ok || cv.Value == nil || !isBoolType(cv.Type()) {
+			return false, false
+		}
+		return cv.Value.String() == "true", true
+	}
+	ip := pred.Params[0]
+	tests := testsOf(pred, ip)
+	have := map[int64]bool{}
+	for _, t := range tests {
+		have[t.idx] = true
+	}
+	if have[10] && have[11] {
+		// the zero-test callees of the predicate
+		var zeroCalls []*ssa.Call
+		eachInstr(pred, func(_ *ssa.BasicBlock, _ int, in ssa.Instruction) {
+			if c, ok := in.(*ssa.Call); ok {
+				if sc := c.Call.StaticCallee(); sc != nil && p.isLibFn(sc) && len(sc.Params) == 1 && sc.Signature.Results().Len() == 1 && isBoolType(sc.Signature.Results().At(0).Type()) {
+					zeroCalls = append(zeroCalls, c)
+				}
+			}
+		})
+		rep := false
+		q := &PathQuery{P: p, Fn: pred}
+		q.AtReturn = func(ret *ssa.Return, _ uint64, c *PathCtx) {
+			rv := c.Resolve(ret.Results[0])
+			b, isB := boolConst(rv)
+			// the last conjunct is returned as it is: the answer is true exactly when that comparison holds
+			var last *ssa.BinOp
+			if !isB {
+				neg := false
+				for {
+					u, isU := rv.(*ssa.UnOp)
+					if !isU || u.Op != token.NOT {
+						break
+					}
+					rv, neg = u.X, !neg
+				}
+				for _, t := range tests {
+					if rv == ssa.Value(t.bo) {
+						last = t.bo
+						if (t.idx == 10 || t.idx == 11) && (t.c != 0xff || (t.bo.Op == token.EQL) == neg) && !rep {
+							rep = true
+							rc.ViolationPath(pred, instrPos(t.bo), fmt.Sprintf("IPv4-mapped test of byte %d", t.idx), fmt.Sprintf("the predicate's answer is the outcome of a comparison that does not say \"byte %d equals 0xff\": an IPv6 address outside ::ffff:0:0/96 is encoded as the IPv4 address in its last four bytes, and reads back as another address", t.idx), c.Witness(pred, ret))
+							return
+						}
+						b, isB = true, true
+					}
+				}
+			}
+			if !isB || !b || rep {
+				return
+			}
+			for _, t := range tests {
+				if t.bo == last {
+					continue
+				}
+				if (t.idx == 10 || t.idx == 11) && (t.c != 0xff || outcome(c, t) != +1) {
+					rep = true
+					rc.ViolationPath(pred, instrPos(t.bo), fmt.Sprintf("IPv4-mapped test of byte %d", t.idx), fmt.Sprintf("the predicate answers true on a path on which byte %d was not found equal to 0xff: an IPv6 address outside ::ffff:0:0/96 is encoded as the IPv4 address in its last four bytes, and reads back as another address", t.idx), c.Witness(pred, ret))
+					return
+				}
+			}
+			for _, zc := range zeroCalls {
+				known := 0
+				for _, pc := range c.PathConds() {
+					cond, val := pc.Cond, pc.Val
+					for {
+						u, isU := cond.(*ssa.UnOp)
+						if !isU || u.Op != token.NOT {
+							break
+						}
+						cond, val = u.X, !val
+					}
+					if cond == ssa.Value(zc) {
+						known = map[bool]int{true: +1, false: -1}[val]
+					}
+				}
+				if known == -1 {
+					rep = true
+					rc.ViolationPath(pred, instrPos(zc), "IPv4-mapped test of the zero prefix", "the predicate answers true on a path on which the zero test of the prefix said no", c.Witness(pred, ret))
+					return
+				}
+			}
+		}
+		q.Run()
+		rc.Instance(fnName(pred)+"|byte values", true, map[string]interface{}{"byte_tests": len(tests), "zero_test_calls": len(zeroCalls)})
+		for _, zc := range zeroCalls {
+			zf := zc.Call.StaticCallee()
+			if zf.Blocks == nil || len(loopsOf(zf)) == 0 {
+				continue
+			}
+			r.Analysed(zf)
+			zt := testsOf(zf, zf.Params[0])
+			if len(zt) == 0 {
+				continue
+			}
+			repZ, sawNo := false, false
+			zq := &PathQuery{P: p, Fn: zf}
+			zq.AtReturn = func(ret *ssa.Return, _ uint64, c *PathCtx) {
+				b, isB := boolConst(c.Resolve(ret.Results[0]))
+				if !isB || repZ {
+					return
+				}
+				differs := false
+				for _, t := range zt {
+					if t.c != 0 {
+						repZ = true
+						rc.Violation(zf, instrPos(t.bo), "zero test compares with another constant", "the prefix of an IPv4-mapped address is ten zero bytes")
+						return
+					}
+					if outcome(c, t) == -1 {
+						differs = true
+					}
+				}
+				if differs && !b {
+					sawNo = true
+				}
+				if differs == b {
+					repZ = true
+					rc.ViolationPath(zf, instrPos(ret), "zero test answers the wrong way round", map[bool]string{true: "the function answers true on the path on which a byte was found different from 0", false: "the function answers false although no byte was found different from 0"}[b]+": the IPv4-mapped predicate takes other addresses for IPv4-mapped ones (or none)", c.Witness(zf, ret))
+				}
+			}
+			zq.Run()
+			if !sawNo && !repZ {
+				rc.Violation(zf, zf.Pos(), "zero test never answers false", "no path of the function returns false for a byte found different from 0: every prefix passes, and any address with 0xff 0xff in bytes 10 and 11 is encoded as IPv4")
+			}
+			rc.Instance(fnName(zf)+"|zero test", true, nil)
+		}
+	}
 }
 
 // countingLoopOver: `for i := 0; i < len(s); i++ { ... s[i] ... }`
